@@ -19,6 +19,38 @@ def dump(g, keys=('element', 'atomname', 'fragname', 'fragid', 'charge', 'weight
             sorted((min(a, b), max(a, b), repr(d.get('order'))) for a, b, d in g.edges(data=True)))
 
 
+def step_guarantees(meta, mol):
+    """the per-step mapping and bonding guarantees of C02/C03 in the form C06 needs them: read off the two
+    returned graphs only.  Returns None or a short text."""
+    for k in meta.nodes:
+        g = meta.nodes[k].get('graph')
+        if g is None:
+            continue
+        rec = {n for n in mol.nodes if k in (mol.nodes[n].get('fragid') or [])}
+        if set(g.nodes) != rec:
+            return 'coarse node %r: fragment graph has nodes %s, fine nodes recording it are %s' % (
+                k, sorted(g.nodes)[:8], sorted(rec)[:8])
+        want = meta.nodes[k].get('fragname')
+        for n in g.nodes:
+            if n not in mol.nodes:
+                return 'coarse node %r: fragment graph node %r is not a fine node' % (k, n)
+            names = [m[0] for m in (mol.nodes[n].get('mapping') or [])]
+            if want not in names and mol.nodes[n].get('fragname') != want:
+                return 'fine node %r was generated from fragment %r but is recorded on coarse node %r named %r' % (
+                    n, mol.nodes[n].get('fragname'), k, want)
+    for n in mol.nodes:
+        fid = mol.nodes[n].get('fragid')
+        if not fid or any(f not in meta.nodes or meta.nodes[f].get('graph') is None for f in fid):
+            return 'fine node %r records coarse node(s) %r that do not exist or have no fragment' % (n, fid)
+    for u, v in mol.edges:
+        fu, fv = set(mol.nodes[u].get('fragid') or []), set(mol.nodes[v].get('fragid') or [])
+        if fu & fv:
+            continue
+        if not any(meta.has_edge(a, b) and meta.edges[a, b].get('order', 1) != 0 for a in fu for b in fv):
+            return 'bond %r-%r joins coarse nodes %s / %s that are not joined by a base edge' % (u, v, sorted(fu), sorted(fv))
+    return None
+
+
 def instrument(resolver, log):
     """record (dictionary index, all-atom flag) of every resolve() through the two methods it calls"""
     orig_dis = resolver.resolve_disconnected_molecule
@@ -59,7 +91,9 @@ class C06(common.Prop):
                  102: 'the three ways of driving give different final results',
                  103: "a step's coarse graph is not the previous step's fine graph",
                  104: 'flattened two-level string does not resolve to the original molecule',
-                 105: 'resolver raised an exception on a valid layered string'}
+                 105: 'resolver raised an exception on a valid layered string',
+                 106: 'the mapping or bonding guarantee fails at a step (fragment graph of a coarse node vs the fine nodes '
+                      'recording it, fragment name, bonds only across base edges)'}
 
     def corpus(self, ctx):
         return [
@@ -112,6 +146,10 @@ class C06(common.Prop):
                 meta, mol = r.resolve()
                 manual.append(log[before:])
                 steps.append((dump(meta, keys=('fragname',)), dump(mol, keys=('atomname',)), dump(mol)))
+                if 'step_bad' not in res:
+                    bad = step_guarantees(meta, mol)
+                    if bad:
+                        res['step_bad'] = 'step %d: %s' % (len(steps) - 1, bad)
             res['manual'] = manual
             final_manual = dump(r.molecule)
             chain_ok = True
@@ -201,6 +239,8 @@ class C06(common.Prop):
             return 102
         if not impl['chain_ok']:
             return 103
+        if impl.get('step_bad'):
+            return 106
         return 0
 
     def case_class(self, case, impl):
